@@ -728,6 +728,12 @@ def run(ctx):
             case = gen_case(rng, ndim, mat, nsteps=4)
             case["truncate"] = [1, 2, 3] if not quick else [rng.choice([1, 2]), 3]
             explore("causal", case, "causal/%dD/%s" % (ndim, mat))
+            if mat != "Econst" and ndim < 3:
+                # with forced sub-division every step is walked through intermediate temperatures: they must come from
+                # the two ends of THAT step only, whatever the history stores afterwards (creeping material: the path matters)
+                case2 = dict(gen_case(rng, ndim, mat, nsteps=3), solver={"max_divide": 2, "force_divide": True})
+                case2["truncate"] = [1, 2]
+                explore("causal", case2, "causal-divided/%dD/%s" % (ndim, mat))
         # path independence, constant alpha
         case = gen_case(rng, ndim, "Econst", nsteps=2 if ndim == 3 else 3)
         explore("path", dict(case, solver={"max_divide": 3, "force_divide": True}), "path-forced/%dD/Econst" % ndim)
